@@ -2433,7 +2433,7 @@ func vC16LinOpKeyed(o vC16LinOp, ki int) vC16LinOp {
 // the one Proofs_lin.v proves for every schedule of the interleaving model.  The
 // Go-side Wing-Gong search judges the same history per key (go_fail).  Of `rounds`
 // recorded rounds every rejected one (at most 4) and the `emit` with the most
-// overlapping calls are written out.
+// overlapping calls are written out (quick: 2400 rounds of 3 workers x 4 calls, 60 emitted).
 func vC16LinCases(seed int64, rounds, emit, workers, perWorker int) []map[string]any {
 	type rec struct {
 		c        map[string]any
@@ -2447,6 +2447,7 @@ func vC16LinCases(seed int64, rounds, emit, workers, perWorker int) []map[string
 		sg := uint(round) % uint(len(m.segments))
 		k1 := vC16KeyInSeg(m, sg, uint64(1+round*7))
 		keys := []uint64{0, k1, vC16KeyInSeg(m, sg, k1+1)}
+		hot := round % len(keys)
 		hist := make([][]vC16LinOp, workers)
 		kidx := make([][]int, workers)
 		var clk, arrive atomic.Int64
@@ -2467,18 +2468,18 @@ func vC16LinCases(seed int64, rounds, emit, workers, perWorker int) []map[string
 						}
 					}
 					ki := r.Intn(len(keys))
-					if r.Intn(3) > 0 {
-						ki = 1 + r.Intn(2) // mostly the two keys that share a slot table
+					if r.Intn(10) < 7 {
+						ki = hot // mostly one key, so that calls on it overlap
 					}
 					k := keys[ki]
 					id := uint64(w+1)*100 + uint64(n+1)
 					old := lastSeen[ki]
-					if old == 0 || r.Intn(4) == 0 {
+					if old == 0 || r.Intn(5) == 0 {
 						old = uint64(r.Intn(workers)+1)*100 + uint64(r.Intn(n+1)+1)
 					}
 					o := vC16LinOp{}
 					switch x := r.Intn(10); {
-					case x < 3:
+					case x < 2:
 						o = vC16LinOp{kind: 0}
 						o.call = clk.Add(1)
 						v, ok := c.Get(k)
@@ -2493,12 +2494,12 @@ func vC16LinCases(seed int64, rounds, emit, workers, perWorker int) []map[string
 						c.Add(k, id)
 						o.ret = clk.Add(1)
 						lastSeen[ki] = id
-					case x < 6:
+					case x < 6 && r.Intn(2) == 0:
 						o = vC16LinOp{kind: 2}
 						o.call = clk.Add(1)
 						c.Remove(k)
 						o.ret = clk.Add(1)
-					case x < 8:
+					case x < 7:
 						o = vC16LinOp{kind: 3, old: old, val: id}
 						o.call = clk.Add(1)
 						o.ok = c.CompareAndSwap(k, old, id)
@@ -2658,7 +2659,7 @@ func TestVerifC16Seg(t *testing.T) {
 	}
 	tr.emit(vC16Linearize(seed, linRounds, 4))
 	tr.emit(vC16Linearize(seed+1, linRounds/2, 8))
-	for _, c := range vC16LinCases(seed, 6*linRounds, linRounds, 3, 3) {
+	for _, c := range vC16LinCases(seed, 40*linRounds, linRounds, 3, 4) {
 		tr.emit(c)
 	}
 	tr.emit(vC16RaceSparse())
